@@ -359,24 +359,42 @@ Qed.
 Definition norm_slice (n start step : Z) : Prop :=
   (0 < step /\ 0 <= start <= n) \/ (step < 0 /\ -1 <= start <= n).
 
-Theorem width_irrelevant_getitem_proof t start stop step c :
-  m_getitem (DInt t) start stop step c = m_getitem DInf start stop step c.
-Proof. reflexivity. Qed.
+Theorem width_irrelevant_getitem_proof t n start stop step c :
+  rmap tv (m_getitem (DInt t) n start stop step c) = rmap tv (m_getitem DInf n start stop step c) /\
+  (* the dtype of the result: the operand's own for the identity shortcut, intp otherwise *)
+  (s_getitem_identity n start stop step = true ->
+     m_getitem (DInt t) n start stop step c = Ok (mkT (DInt t) c)) /\
+  (s_getitem_identity n start stop step = false ->
+     m_getitem (DInt t) n start stop step c = m_getitem DInf n start stop step c).
+Proof.
+  unfold m_getitem. destruct (s_getitem_identity n start stop step); repeat split; try reflexivity; discriminate.
+Qed.
 
 Lemma wr_i64 z : - 2 ^ 63 <= z < 2 ^ 63 -> wr (DInt i64) z = z.
 Proof. intros H. apply wr_fits; [cbn; lia|]. apply fits_iff. cbn. lia. Qed.
 
-(* and nothing wraps in intp either: the result is the mathematical (c - start) / step *)
+(* and nothing wraps in intp either: in both cases the result holds the mathematical (c - start) / step
+   of the selected coordinates *)
 Theorem getitem_exact_proof d n start stop step c :
   norm_slice n start step -> coords_in n c -> n < 2 ^ 63 -> - 2 ^ 63 <= step < 2 ^ 63 ->
-  m_getitem d start stop step c =
-  Ok (mkT (DInt i64) (map (fun x => (x - start) / step) (filter (sel_mask start stop step) c))).
+  rmap tv (m_getitem d n start stop step c) =
+  Ok (map (fun x => (x - start) / step) (filter (sel_mask start stop step) c)).
 Proof.
-  intros Hsl Hc Hn Hst.
-  unfold m_getitem, s_getitem_map, arr_py, astype. cbn [bind tdt tv].
+  intros Hsl Hc Hn Hst. unfold m_getitem.
+  destruct (s_getitem_identity n start stop step) eqn:Eid.
+  { (* identity shortcut: start = 0, stop = n, step = 1; every coordinate is selected and maps to itself *)
+    unfold s_getitem_identity in Eid. apply andb_true_iff in Eid. destruct Eid as [Eid E3].
+    apply andb_true_iff in Eid. destruct Eid as [E1 E2].
+    apply Z.eqb_eq in E1, E2, E3. subst start stop step. cbn [rmap tv]. f_equal.
+    induction Hc as [|x r Hx Hr IH]; [reflexivity|]. cbn [filter].
+    assert (M : sel_mask 0 n 1 x = true).
+    { unfold sel_mask. destruct (Z.ltb_spec 0 1); [|lia]. rewrite Z.mod_1_r.
+      destruct (Z.leb_spec 0 x), (Z.ltb_spec x n); try lia; try reflexivity. }
+    rewrite M. cbn [map]. rewrite <- IH. f_equal. now rewrite Z.sub_0_r, Z.div_1_r. }
+  unfold s_getitem_map, arr_py, astype. cbn [bind tdt tv].
   assert (Fs : fits (DInt i64) start = true) by (apply fits_iff; cbn; destruct Hsl; lia).
   assert (Fp : fits (DInt i64) step = true) by (apply fits_iff; cbn; lia).
-  rewrite Fs. cbn [bind tdt tv]. rewrite Fp. f_equal. f_equal. rewrite !map_map.
+  rewrite Fs. cbn [bind tdt tv]. rewrite Fp. cbn [rmap tv]. f_equal. rewrite !map_map.
   assert (Hf : Forall (fun x => 0 <= x < n /\ sel_mask start stop step x = true)
                       (filter (sel_mask start stop step) c)).
   { apply Forall_forall. intros x Hx. apply filter_In in Hx. destruct Hx as [Hi Hm].
@@ -404,7 +422,8 @@ Qed.
 
 Example width_irrelevant_getitem_nonvacuous :
   norm_slice 100 99 (-3) /\ coords_in 100 [0; 5; 96; 99] /\
-  rmap tv (m_getitem (DInt u8) 99 (-101) (-3) [0; 5; 96; 99]) = Ok [33; 1; 0].
+  m_getitem (DInt u8) 100 99 (-101) (-3) [0; 5; 96; 99] = Ok (mkT (DInt i64) [33; 1; 0]) /\
+  m_getitem (DInt u8) 100 0 100 1 [0; 5; 96; 99] = Ok (mkT (DInt u8) [0; 5; 96; 99]).
 Proof. repeat split; try reflexivity; [right; lia|repeat constructor; lia]. Qed.
 
 (* ------------------------------------------------------------------ reshape: dtype re-choice *)
